@@ -5,6 +5,7 @@ code model `G` (Model/View.lean) on flat structures.
 import Emboss.Spec.ViewRef
 import Emboss.Lemmas.ViewMono2
 import Emboss.Lemmas.Synth
+import Emboss.Model.ViewObs
 namespace Emboss.ViewRef
 open Emboss.View
 
@@ -479,5 +480,65 @@ theorem G_complete (m : Module) (sd : StructDef) (hflat : flatStruct sd = true)
       | has a => simp at hff
       | lv => simp at hff
       | op a b => simp at hff
+
+/-! ### `Equals` on flat structures (C20) -/
+
+theorem step_has_field (m : Module) (n : Nat) (sd : StructDef) (ps : List Val) (buf : List Nat)
+    {x : String} {f : Field} (hf : sd.field x = some f) :
+    (G m (n + 1)).has (rootView sd ps buf) [x] = hasField (G m n) (rootView sd ps buf) f := by
+  simp only [G, step]
+  have hsd : (rootView sd ps buf).sd = sd := rfl
+  rw [hsd, hf]
+
+theorem step_read_scalar (m : Module) (n : Nat) (sd : StructDef) (ps : List Val) (buf : List Nat)
+    {x : String} {f : Field} (hf : sd.field x = some f) {start size : Expr} {k : ScalarKind} {bits : Nat}
+    {req : Option Expr} {bo : ByteOrder} (hk : f.kind = .phys start size (.scalar k bits req) bo) :
+    (G m (n + 1)).read (rootView sd ps buf) [x] =
+      match physStorage (G m n) (rootView sd ps buf) f start size with
+      | some st => leafRead (G m n) (rootView sd ps buf) k bits req (st.adaptFor sd.unit 1 bo bits)
+      | none => none := by
+  simp only [G, step]
+  have hsd : (rootView sd ps buf).sd = sd := rfl
+  rw [hsd, hf]
+  simp only [hk]
+  cases physStorage (G m n) (rootView sd ps buf) f start size <;> rfl
+
+/-- The per-field clause of the generated `Equals`, for a scalar physical field, in terms of what
+the two views report one level up. -/
+theorem fieldEquals_scalar (m : Module) (n : Nat) (sd : StructDef) (ps : List Val) (a b : List Nat)
+    (eqv : SView → SView → Bool) {f : Field} (hf : sd.field f.name = some f)
+    {start size : Expr} {k : ScalarKind} {bits : Nat} {req : Option Expr} {bo : ByteOrder}
+    (hk : f.kind = .phys start size (.scalar k bits req) bo) :
+    fieldEquals (G m n) m eqv (rootView sd ps a) (rootView sd ps b) f =
+      match (G m (n + 1)).has (rootView sd ps a) [f.name], (G m (n + 1)).has (rootView sd ps b) [f.name] with
+      | some ha, some hb =>
+        ha == hb && (!ha ||
+          (match (G m (n + 1)).read (rootView sd ps a) [f.name],
+                 (G m (n + 1)).read (rootView sd ps b) [f.name] with
+           | some x, some y => x == y
+           | _, _ => false))
+      | _, _ => false := by
+  rw [step_has_field m n sd ps a hf, step_has_field m n sd ps b hf,
+    step_read_scalar m n sd ps a hf hk, step_read_scalar m n sd ps b hf hk]
+  simp only [fieldEquals, hk, argsKnown, ↓reduceIte]
+  have hsda : (rootView sd ps a).sd = sd := rfl
+  have hsdb : (rootView sd ps b).sd = sd := rfl
+  cases hasField (G m n) (rootView sd ps a) f with
+  | none => rfl
+  | some ha =>
+    cases hasField (G m n) (rootView sd ps b) f with
+    | none => rfl
+    | some hb =>
+      simp only
+      congr 2
+      cases physStorage (G m n) (rootView sd ps a) f start size with
+      | none => simp
+      | some sa =>
+        cases physStorage (G m n) (rootView sd ps b) f start size with
+        | none => simp
+        | some sb =>
+          simp only [typeEquals, hsda, hsdb]
+          cases leafRead (G m n) (rootView sd ps a) k bits req (Storage.adaptFor sd.unit 1 bo bits sa) <;>
+            cases leafRead (G m n) (rootView sd ps b) k bits req (Storage.adaptFor sd.unit 1 bo bits sb) <;> rfl
 
 end Emboss.ViewRef
